@@ -85,6 +85,31 @@ def run(chk):
                 if got != {"k": "dimerr"}:
                     chk.diverge({"clause": "cross-dimension-ordering-under-context", "op": op, "observed": got["k"], "autoconvert": ac},
                                 {"registry": lines, "a": a, "b": b, "op": op, "context": "[L] <-> [T], [L] <-> [Th]"})
+        # Unit objects are ordered as the quantities 1 * unit are (whose answers are checked against the model above); == on units is the
+        # structural equality of C04 (kelvin != delta_degC although 1 K == 1 delta_degC), so only its agreement with hash is checked here
+        names = sorted(reg["units"])
+        for an in names:
+            for bn in names:
+                for op in ("lt", "le", "gt", "ge", "hash"):
+                    chk.case(("unit-cmp", ac, op, an, bn))
+                    outs = []
+                    for mk in (lambda n: ureg.Unit(n), lambda n: ureg.Quantity(F(1), n)):
+                        try:
+                            x, y = mk(an), mk(bn)
+                            outs.append(qr.project(qr.apply(op, x, y)) if op != "hash" else {"k": "bool", "b": hash(x) == hash(y)})
+                        except Exception as e:
+                            outs.append({"k": qr.kind_of_exception(e)})
+                    if op == "hash":
+                        # equal units have equal hashes
+                        try:
+                            if (ureg.Unit(an) == ureg.Unit(bn)) and not outs[0].get("b"):
+                                chk.diverge({"clause": "unit-eq-implies-hash", "autoconvert": ac}, {"registry": lines, "a": an, "b": bn})
+                        except Exception:
+                            pass
+                        continue
+                    if outs[0] != outs[1]:
+                        chk.diverge({"clause": "unit-comparison-differs-from-quantity", "op": op, "autoconvert": ac},
+                                    {"registry": lines, "a": an, "b": bn, "op": op, "unit_result": outs[0], "quantity_result": outs[1]})
         # NaN: never equal, not even to itself; != is the negation (relational, harness side)
         for uname in ("m", "cm", "pct", "delta_C"):
             q = ureg.Quantity(math.nan, uname)
